@@ -1110,7 +1110,16 @@ class C06(Property):
           shift = min(ds) if ds else 0
           ns2 = dict((k - shift, v) for k, v in ns.items())
           ds2 = dict((k - shift, v) for k, v in ds.items())
-          if not psame(na, ns2) or not psame(da, ds2):
+          # ... up to one common factor per instant: the whole difference
+          # equation of sample n multiplied by lam[n] != 0 is the same
+          # equation (a result normalised to a0 = 1, say)
+          lam = 1
+          if 0 in da and 0 in ds2 and ds2[0] != 0 and da[0] != 0:
+            lam = da[0] / ds2[0]
+            if lam != 1:
+              res.counters["probe.result-scaled-by-a-common-factor"] += 1
+          if not psame(na, pscale(lam, ns2)) or \
+             not psame(da, pscale(lam, ds2)):
             raise _Mismatch("algebra:coefficient-sequences",
                             "n=%d: %s has num %r den %r, the term-by-term "
                             "result is num %r den %r"
